@@ -172,12 +172,16 @@ def run(prog, R):
                     bad += 1
         R.ob("C07.3-initializer-before-binding", "classical declaration", bad == 0 and nb > 0, cd.at, f"{nb} paths: the initializer is translated before the declared name is bound (a name is not visible in its own initializer)")
     ps, _ = paths(prog, s2s.npath)
+    nal, badal = 0, 0
     for p in ps:
         if arm_of(prog, p, STMT_ENUM, "stmt") == "AliasDeclarationStatement" and "__diverged__" not in p.env:
             names = [c[0] for c in p.calls]
-            ok = S2S + "expr_to_asg_texpr" in names and CTX + "new_binding" in names and names.index(S2S + "expr_to_asg_texpr") < names.index(CTX + "new_binding")
-            R.ob("C07.3-initializer-before-binding", "alias", ok, s2s.at, "alias: right-hand side translated before the alias name is bound")
-            break
+            if CTX + "new_binding" not in names:
+                continue
+            nal += 1
+            if not (S2S + "expr_to_asg_texpr" in names and names.index(S2S + "expr_to_asg_texpr") < names.index(CTX + "new_binding")):
+                badal += 1
+    R.ob("C07.3-initializer-before-binding", "alias", nal >= 1 and not badal, s2s.at, f"alias: right-hand side translated before the alias name is bound on all {nal} binding path(s)")
 
     # gate definition: names are bound in textual order: angle parameters `(a, b)` before the qubit list `q, r`
     # (when the two lists share a name, the one written first must win and the second be the redeclaration)
@@ -215,13 +219,17 @@ def run(prog, R):
     sb = prog.body("<std::result::Result<oq3_semantics::symbols::SymbolRecord, oq3_semantics::symbols::SymbolError> as oq3_semantics::symbols::SymbolType>::symbol_type")
     if sb:
         ps, _ = paths(prog, sb.npath)
-        ok = False
+        nerr, bade = 0, []
         for p in ps:
+            if "__diverged__" in p.env:
+                continue
             r = deep_strip(p.env.get(0))
             d = [c for t, c in conds_of(p)]
             if d and d[0] == ("eq", 1):
-                ok = "Type::Undefined" in show(r)
-        R.ob("C07.5-lookup-diagnostics", "unresolved => Type::Undefined", ok, sb.at, "SymbolType for Result maps Err to Type::Undefined")
+                nerr += 1
+                if "Type::Undefined" not in show(r):
+                    bade.append(show(r)[:60])
+        R.ob("C07.5-lookup-diagnostics", "unresolved => Type::Undefined", nerr >= 1 and not bade, sb.at, f"SymbolType for Result maps Err to Type::Undefined on all {nerr} Err path(s); deviating {bade[:2]}")
     else:
         R.ob("ANCHOR", "SymbolType for Result", False)
     # one lookup per identifier use
